@@ -358,3 +358,76 @@ class from_number(Contract):
 
     def build(self, i):
         return (i['val'], i['typ']), {}
+
+
+@contract
+class to_number(Contract):
+    fn = Component.to_number
+    props = ('C09', 'C19')
+    exact_raises = True
+    doc = 'Component.to_number == big-endian value of the bytes after the T and L numbers'
+
+    def setup(self, cx):
+        return dict(component=cx.run.input_buf('component', 'bytes'))
+
+    def pre(self, cx, component):
+        return isinstance(component, View)
+
+    raises = dict(get_value.raises)
+
+    def post(self, cx, result, component):
+        h = cx.old_heap
+        tn = need_at(h, component, 0)
+        sn = need_at(h, component, tn)
+        vlen = zint(component.length) - tn - sn
+        val = View(component.cell, simp(zint(component.start) + tn + sn), simp(vlen), component.kind)
+        return {'value': And(zint(result) >= 0, *[Implies(vlen == w, zint(result) == be(h, component, tn + sn, w)) for w in (1, 2, 4, 8)]),
+                'empty_is_zero': Implies(vlen == 0, zint(result) == 0),
+                'is_big_endian_value': zint(result) == beint_term(h, val)}
+
+    def result(self, cx, component):
+        h = cx.heap
+        cx.run.assume(bytes_in_range(h, component, 0, 26))
+        tn = need_at(h, component, 0)
+        sn = need_at(h, component, tn)
+        val = View(component.cell, simp(zint(component.start) + tn + sn), simp(zint(component.length) - tn - sn), component.kind)
+        cx.run.assume(beint_axioms(h, val))
+        r = cx.run.fresh_int('number')
+        cx.run.assume(r == beint_term(h, val))
+        return r
+
+    def build(self, i):
+        return (bytes.fromhex(i['component']['hex']),), {}
+
+
+@contract
+class normalize(Contract):
+    fn = Name.normalize
+    props = ('C09', 'C04', 'C19')
+    doc = ('Name.normalize: a list of encoded components is returned as a (shallow) copy with the same components; an encoded '
+           'Name is decoded; text goes through from_str; anything else is a TypeError')
+    raises = {TypeError: lambda cx, name: not isinstance(name, (BufSeq, View, str)) and type(name).__name__ != 'SymStr',
+              ValueError: lambda cx, name: not isinstance(name, BufSeq),
+              IndexError: lambda cx, name: isinstance(name, View), struct.error: lambda cx, name: isinstance(name, View)}
+    loops = {1: LoopSpec(lambda it, env, g: {'same_list': env['ret'] is g['ret0']},
+                         ghost=lambda it, env, g: {'ret0': env['ret']})}
+
+    def setup(self, cx):
+        k = cx.run.choose([('list', True), ('bytes', True), ('other', True)], 'name')
+        if k == 'list':
+            return dict(name=_input_name(cx))
+        if k == 'bytes':
+            return dict(name=cx.run.input_buf('name', 'bytes'))
+        return dict(name=5)
+
+    def post(self, cx, result, name):
+        if isinstance(name, BufSeq):
+            ok = isinstance(result, BufSeq) and result is not name
+            return {'copy_of_the_component_list': ok and And(Eq(result.n, name.n), result.cells == name.cells,
+                                                             result.starts == name.starts, result.lens == name.lens)}
+        return {'component_list': isinstance(result, BufSeq)}
+
+    def result(self, cx, name):
+        if isinstance(name, BufSeq):
+            return name.copy()
+        return BufSeq.fresh(cx.run, 'normalized', 'memoryview')
